@@ -940,6 +940,40 @@ static void emit_factored_learned(Rng & rng, int nsamples) {
     std::printf("#stat factored_learned 1\n");
 }
 
+
+// CooperativeModel::sampleSR repeated on one object (s <- s1): every factor of every step draws from the same engine in
+// order; the joint action of a step depends on all earlier outcomes
+static void emit_traj_coop(Rng & rng, int steps) {
+    namespace FM = AI::Factored::MDP;
+    const unsigned root = (unsigned)rng.next();
+    AI::Seeder::setRootSeed(root);
+    auto model = rng.coin() ? makeRandomCoop(rng) : FM::makeSysAdminUniRing(3, 0.125, 0.25, 0.375, 0.5, 0.25, 0.75, 0.125);
+    SeederMirror sm(root);
+    std::mt19937 mir(sm.next());
+    std::uniform_real_distribution<double> d01(0.0, 1.0);
+    const auto & S = model.getS(); const auto & A = model.getA();
+    AI::Factored::State s(S.size()); for (size_t i = 0; i < S.size(); ++i) s[i] = rng.below(S[i]);
+    const AI::Factored::State s0 = s;
+    std::vector<double> us; std::vector<size_t> out; size_t sum = 0;
+    for (int t = 0; t < steps; ++t) {
+        AI::Factored::Action a(A.size()); for (size_t j = 0; j < A.size(); ++j) a[j] = (sum + j) % A[j];
+        for (size_t i = 0; i < S.size(); ++i) us.push_back(d01(mir));
+        auto [s1, rew] = model.sampleSR(s, a);
+        for (auto x : s1) { out.push_back(x); sum += x; }
+        s = s1;
+    }
+    Line x; x << "C08" << "trajc"; x.nats(S); x.nats(A);
+    const auto & ps = model.getGraph().getParentSets();
+    x << (size_t)ps.size();
+    for (size_t i = 0; i < ps.size(); ++i) {
+        x.nats(ps[i].agents); x << (size_t)ps[i].features.size(); for (auto & f : ps[i].features) x.nats(f);
+        const auto & m = model.getTransitionFunction().transitions[i];
+        x << (size_t)m.rows(); for (long r = 0; r < m.rows(); ++r) { std::vector<double> row; rowOf(m, (size_t)r, row); x.nums(row); }
+    }
+    x.nats(s0); x.nums(us); x << "|"; x.nats(out); x.emit();
+    std::printf("#stat traj_coop 1\n");
+}
+
 // ---------------------------------------------------------------- cases
 static const long kWitness = 26;
 
@@ -1089,6 +1123,7 @@ void verif::verif_case(Rng & rng, long idx, const std::string & tier) {
         case 13: if (rng.coin()) emit_fband(rng, thorough ? 10 : 6); else emit_factored_learned(rng, thorough ? 8 : 4); break;
         case 11: {
             if (rng.coin(1, 8)) { emit_seeded(rng, rng.coin(), (unsigned)rng.next()); std::printf("#stat seeded 1\n"); }
+            if (rng.coin(1, 4)) { emit_traj_coop(rng, (int)rng.range(1, thorough ? 8 : 4)); break; }
             emit_traj(rng, (int)rng.range(1, thorough ? 24 : 10)); std::printf("#stat traj 1\n"); break;
         }
         default: emit_factored(rng, thorough ? 8 : 4); std::printf("#stat factored_models 1\n"); break;
